@@ -192,6 +192,15 @@ func c08Do(c XCfg, j *rt.Job, seed uint64, r *rt.Rec) {
 		snaps := make([][]byte, n+1)
 		sigs := make([][]byte, n)
 		for i := uint32(0); i < n; i++ {
+			if i%3 == 1 {
+				// calls the key must refuse (beyond the tree / rewind) happen in the original's life too
+				arg := n + uint32(rng.Intn(3))
+				if i%2 == 1 && i > 0 {
+					arg = uint32(rng.Intn(int(i)))
+				}
+				rt.Call(func() { orig.SetIndex(arg) })
+				r.Count("refused_calls_in_original_life", 1)
+			}
 			snaps[i] = xmss.VerifSnapshot(orig)
 			s, err := orig.Sign(msgFor(c, i, "c08"))
 			if err != nil {
@@ -291,6 +300,14 @@ func c08Do(c XCfg, j *rt.Job, seed uint64, r *rt.Rec) {
 				// tall tree: sign only in the neighbourhood of compared indices, step in between
 				orig.SetIndex(i + 1)
 				continue
+			}
+			if i%5 == 2 {
+				arg := n + uint32(i%4)
+				if i%2 == 0 && i > 0 {
+					arg = i - 1
+				}
+				rt.Call(func() { orig.SetIndex(arg) })
+				r.Count("refused_calls_in_original_life", 1)
 			}
 			if _, err := orig.Sign(msgFor(c, i, "c08")); err != nil {
 				r.Inconclusive("original failed to sign")
